@@ -8,6 +8,7 @@
 """
 from vlib import facts, rules, e2props
 from vlib.report import Run
+from vlib import controls
 
 RELOCATING = ("swap", "swap_remove", "remove", "insert", "retain", "retain_mut", "drain", "truncate", "pop", "dedup", "dedup_by", "dedup_by_key", "sort", "sort_by", "sort_by_key",
               "sort_unstable", "sort_unstable_by", "sort_unstable_by_key", "reverse", "rotate_left", "rotate_right", "split_off", "append", "resize", "resize_with", "extend_from_slice",
@@ -92,6 +93,7 @@ def main(tier):
                 run.ob("drops", "%s/%s drops no payload" % (entry, prof), not drops, key="drops|%s drops a live payload" % entry, detail=e2props.detail_of(rec), nontrivial=(entry, "nodrop"))
             else:
                 run.ob("drops", "%s/%s drops no payload" % (entry, prof), not drops, key="drops|%s drops a live payload" % entry, detail=e2props.detail_of(rec), nontrivial=(entry, "nodrop"))
+    controls.selftest(run, ['relocating Vec call', 'leak primitive', 'unsafe block'])
     run.extra["written_argument"] = ("A node's slot index never changes (no relocation) and its stamp changes only when it is removed (C06), so the id returned at creation addresses it until its own "
                                      "removal; its payload is written only at creation/recycling of that slot and dropped only by free_node of that node (or with the Vec on clear/drop).")
     run.assumptions += ["A3: payload destructors do not panic", "A4: callers do not exchange whole Node values through iter_mut/get_mut with mem::swap",
